@@ -210,3 +210,10 @@ PROPERTIES["C11"]["explanation"] += (" Degenerate transitions reproduce the dete
 PROPERTIES["C18"]["rules"] += [per.per_rules]
 PROPERTIES["C18"].setdefault("filter", {})["R3.PER"] = lambda o: o.key.startswith(("PER3", "PER4", "R3.PER"))
 PROPERTIES["C18"]["explanation"] += " The segment arg-max of period t runs over the choice segments of period t (R3.PER3)."
+PROPERTIES["C09"]["rules"] += [bel.masked_reduction]
+PROPERTIES["C09"].setdefault("filter", {})["R13.ALG2"] = lambda o: "product-over-continuous-choices" in o.key or o.key.startswith("R13.ALG2")
+PROPERTIES["C09"]["explanation"] += (" The axes of the continuous arg-max are the caller's list of continuous choices, not an order read back from a "
+                                     "generated signature (ALG2 product-over-continuous-choices).")
+PROPERTIES["C06"]["rules"] += [sim.data_space_layout]
+PROPERTIES["C06"]["explanation"] += (" The simulator evaluates the solver's value functions on agents x sparse-choice combinations; the pairing of "
+                                     "rows (R5.LAY) is part of that agreement.")
